@@ -126,6 +126,28 @@ CHECKS['C18'] = dict(
          'and larger tables with evil string cells are judged by the trace specification.',
     design_ref='4 (C18)', technique='TLA+/TLC model checking + exhaustive spec-to-code replay + trace validation',
     note=_NOTE + ' Floats and strings are tokens; numeric accuracy beyond the written precision is not decided.')
+CHECKS['C05'] = dict(
+    text='Templates.tla: the I-layer transcribes _find_best_channels / dense and sparse template records '
+         'with the unspecified orders (argsort among equidistant channels, among equal amplitudes) as '
+         'nondeterministic choices; TLC proves every outcome satisfies the relational statement '
+         '(ValidDense) over all 2x3 templates, 3 whitening inverses, geometries with distance ties, shank '
+         'layouts, thresholds and neighbourhood sizes. Records of the real get_template / '
+         'get_template_channels / get_template_waveforms on random dense and sparse datasets (3..8 '
+         'channels, neighbourhoods 2/3/nc-1/12, multi-shank, exact whitening, explicit lists, -1 and '
+         'all-zero sparse columns) are validated by ValidDense / ValidExplicit / ValidSparse.',
+    design_ref='4 (C05)', technique='TLA+/TLC model checking (relational spec) + trace validation of recorded template records',
+    note=_NOTE + ' Exact arithmetic by construction (small integers, whitening inverses in multiples of 1/4).')
+CHECKS['C09'] = dict(
+    text='Summaries.tla: definitions of scaled spike amplitudes, per-id means as exact rationals (NaN for '
+         'every id without spikes, including the highest), rescaled waveforms, stored-amplitude means, peak '
+         'channels, peak-to-trough durations and feature-weighted depths; TLC proves the bincount '
+         'formulation equal to the member-set definition on a tiny exhaustive scope; records of '
+         'get_amplitudes_true (templates and clusters, three unit factors), *_amplitudes, *_channels, '
+         '*_waveforms_durations and get_depths from real models over random dense datasets (empty ids at '
+         'first/middle/last position, three whitening kinds, rates 2^k, split clusters) are validated '
+         'against the definitions (rationals exactly, rescaled waveforms and depths to 1/256).',
+    design_ref='4 (C09)', technique='TLA+/TLC model checking + trace validation of recorded summaries',
+    note=_NOTE + ' Not a numerical-accuracy check: deviations below 1/256 in fixed-point quantities are invisible.')
 
 NOT_APPLICABLE = {}
 for e in ENGINES:
